@@ -83,6 +83,8 @@ def run(ctx):
     rnd = []
     for i in range(3000 if thorough else 250):
         tb = g.table(rng.randint(1, 3), rng.choice([3, 6, 12, 24]))
+        if i % 4 == 0:          # long port names (15, 19, 40 characters before the varying part)
+            treegen.lengthen(tb, treegen.LONG_PREFIXES[(i // 4) % 3])
         rnd.append(dict(table=tb, addrs=treegen.addresses(rng, tb)))
     count_results(ctx, rnd)
     tot += run_tables(ctx, rnd, "random")
